@@ -683,6 +683,12 @@ impl<W: Word, B: AsRef<[W]> + AsMut<[W]>> BitFieldSliceMut<W> for BitFieldVec<W,
         }
         let bit_width = self.bit_width();
         if bit_width == 0 {
+            // All values are zero and nothing can be stored, but the function
+            // is still applied once per element, as in the default
+            // implementation.
+            for _ in 0..self.len() {
+                f(W::ZERO);
+            }
             return;
         }
         let mask = self.mask();
